@@ -1051,6 +1051,24 @@ DICT_METHODS = {
 
 
 def method_of(eng, v, name):
+    """the method `v.name`; stock array methods (pyvc/stock_np.py) are a last resort: where there is none, or where it refuses the call"""
+    from . import stock_np
+
+    try:
+        m = _method_of(eng, v, name)
+    except Unsupported as e:
+        s = stock_np.method_of(eng, v, name, None, e)
+        if s is None:
+            raise
+        return s
+    if isinstance(m, NativeMethod):
+        s = stock_np.method_of(eng, v, name, m)
+        if s is not None:
+            return s
+    return m
+
+
+def _method_of(eng, v, name):
     for (cls, nm), mdl in EXTRA_METHODS.items():
         if nm == name and isinstance(v, cls):
             return NativeMethod(mdl, v, name)
@@ -1870,11 +1888,12 @@ def lookup_model(fn):
             m = BUILTIN_MODELS.get(fn)
     except TypeError:
         m = None
-    if m is not None:
-        return m
-    from . import npmodels
+    from . import npmodels, stock_np
 
-    return npmodels.lookup_model(fn)
+    if m is None:
+        m = npmodels.lookup_model(fn)
+    # stock models (pyvc/stock_np.py) are a LAST RESORT: used where no table has a model of fn, or where that model refuses the operands
+    return stock_np.wrap(fn, m)
 
 
 # array operators are in npmodels
